@@ -1,10 +1,11 @@
-import Holpy.Kernel.Soundness
+import Holpy.Kernel.SoundnessIn
 import Holpy.C01.Gen
 /-
 C01 — every sequent the checker accepts from primitive inferences is valid.
 
-`Good th` (Kernel/Soundness.lean) = `th` passes `check_thm_type`, uses the logical constants at
-instances of their declared types, and is valid in EVERY finite standard model: every assignment
+`Good th` (Kernel/Soundness.lean) = `th` passes `check_thm_type` (well-typed; and, as the checker
+enforces it, the logical constants `equals`/`implies`/`all` occur at instances of their declared
+types only) and is valid in EVERY finite standard model: every assignment
 of sizes ≥ 1 to type variables, schematic type variables and type constructors, and every
 admissible valuation of free variables, schematic variables and non-logical constants.
 -/
@@ -13,15 +14,20 @@ open Holpy
 
 /-! ### the rule table regenerated from `kernel/thm.py` -/
 
-/-- The rules `primitive_deriv` offers are exactly the 15 the model implements, with the argument
-signatures the model's dispatch expects: a rule added, removed or re-typed in `kernel/thm.py`
-breaks this obligation. -/
+/-- The rules `primitive_deriv` offers are exactly the 15 the model implements, each bound to the
+`Thm` method of the same name and with the argument signature the model's dispatch expects: a rule
+added, removed, re-typed or re-bound to another function in `kernel/thm.py` breaks this
+obligation. -/
 theorem rule_table_pinned :
-    Gen.primitiveDeriv.map (fun r => (r.1, r.2.2)) =
-      [("assume", "Term"), ("implies_intr", "Term"), ("implies_elim", "None"), ("reflexive", "Term"),
-       ("symmetric", "None"), ("transitive", "None"), ("combination", "None"), ("equal_intr", "None"),
-       ("equal_elim", "None"), ("subst_type", "TyInst"), ("substitution", "Inst"), ("beta_conv", "Term"),
-       ("abstraction", "Term"), ("forall_intr", "Term"), ("forall_elim", "Term")] := by decide
+    Gen.primitiveDeriv =
+      [("assume", "Thm.assume", "Term"), ("implies_intr", "Thm.implies_intr", "Term"),
+       ("implies_elim", "Thm.implies_elim", "None"), ("reflexive", "Thm.reflexive", "Term"),
+       ("symmetric", "Thm.symmetric", "None"), ("transitive", "Thm.transitive", "None"),
+       ("combination", "Thm.combination", "None"), ("equal_intr", "Thm.equal_intr", "None"),
+       ("equal_elim", "Thm.equal_elim", "None"), ("subst_type", "Thm.subst_type", "TyInst"),
+       ("substitution", "Thm.substitution", "Inst"), ("beta_conv", "Thm.beta_conv", "Term"),
+       ("abstraction", "Thm.abstraction", "Term"), ("forall_intr", "Thm.forall_intr", "Term"),
+       ("forall_elim", "Thm.forall_elim", "Term")] := by decide
 
 def ruleKnown (r : String) : Bool :=
   match applyRule r .none [] with
@@ -33,45 +39,29 @@ theorem rule_table_modelled : (Gen.primitiveDeriv.map (·.1)).all ruleKnown = tr
 
 /-! ### soundness of one checker step -/
 
+/-- some sequent, for the examples below -/
+def falseThm0 : Thm := ⟨[], .const "false" Ty.bool⟩
+
+def isBadInput : Except RErr Thm → Bool
+  | .error .badInput => true
+  | _ => false
+
 /-- One step of the checker on a primitive rule (`applyRule` followed by `check_thm_type`): from
 premises that are well-typed and valid in every finite standard model, an accepted result is
-well-typed and valid in every finite standard model — whatever the argument is (ill-typed, open,
-clashing names, schematic variables in hypotheses …), as long as it uses the logical constants at
-instances of their types. -/
+well-typed and valid in every finite standard model — WHATEVER the argument is (ill-typed, open,
+clashing names, schematic variables in hypotheses, mis-typed logical constants, an object of the
+wrong kind …).  (The rule proofs are in Kernel/SoundnessIn.lean.) -/
 theorem prim_sound (rule : String) (arg : Arg) (prems : List Thm) (th : Thm)
-    (hp : ∀ p ∈ prems, Good p) (ha : Arg.sigOK arg = true)
-    (h : checkStep rule arg prems = .ok th) : Good th := by
-  unfold checkStep at h
-  cases hr : applyRule rule arg prems with
-  | error e => rw [hr] at h; cases h
-  | ok th0 =>
-    rw [hr] at h
-    simp only [bind, Except.bind] at h
-    by_cases hwt : Thm.checkThmType th0 = true
-    · rw [if_pos hwt] at h
-      cases h
-      unfold applyRule at hr
-      split at hr
-      all_goals first
-        | (cases hr; first
-            | exact assume_sound _ ha hwt
-            | exact impliesIntr_sound _ _ ha (hp _ (by simp)) hwt
-            | exact substType_sound _ _ (hp _ (by simp)) hwt)
-        | exact impliesElim_sound _ _ _ (hp _ (by simp)) (hp _ (by simp)) hr hwt
-        | exact reflexive_sound _ _ ha hr hwt
-        | exact symmetric_sound _ _ (hp _ (by simp)) hr hwt
-        | exact transitive_sound _ _ _ (hp _ (by simp)) (hp _ (by simp)) hr hwt
-        | exact combination_sound _ _ _ (hp _ (by simp)) (hp _ (by simp)) hr hwt
-        | exact equalIntr_sound _ _ _ (hp _ (by simp)) (hp _ (by simp)) hr hwt
-        | exact equalElim_sound _ _ _ (hp _ (by simp)) (hp _ (by simp)) hr hwt
-        | exact substitution_sound _ _ _ (hp _ (by simp)) ha hr hwt
-        | exact betaConv_sound _ _ ha hr hwt
-        | exact abstraction_sound _ _ _ (hp _ (by simp)) hr hwt
-        | exact forallIntr_sound _ _ _ (hp _ (by simp)) hr hwt
-        | exact forallElim_sound _ _ _ ha (hp _ (by simp)) hr hwt
-        | (split at hr <;> cases hr)
-    · rw [if_neg hwt] at h
-      cases h
+    (hp : ∀ p ∈ prems, Good p)
+    (h : checkStep rule arg prems = .ok th) : Good th :=
+  prim_sound_of_in rule arg prems th hp h
+
+/-- a step whose argument is not of the kind the rule expects, or with the wrong number of
+premises, is rejected ("invalid input to derivation") -/
+example : isBadInput (checkStep "implies_elim" .other [falseThm0, falseThm0]) = true := by decide
+example : isBadInput (checkStep "assume" .none []) = true := by decide
+example : isBadInput (checkStep "subst_type" .none [falseThm0, falseThm0]) = true := by decide
+example : isBadInput (checkStep "symmetric" .none []) = true := by decide
 
 /-! ### soundness of accepted proof scripts -/
 
@@ -99,7 +89,7 @@ theorem lookupPrems_mem (acc : List Thm) (l : List Nat) (ps : List Thm)
         | tail _ hp1 => exact ih ps' hl p hp1
 
 theorem runScript_sound (steps : List Step) (acc res : List Thm)
-    (hacc : ∀ th ∈ acc, Good th) (hs : ∀ s ∈ steps, Arg.sigOK s.arg = true)
+    (hacc : ∀ th ∈ acc, Good th)
     (h : runScript steps acc = .ok res) : ∀ th ∈ res, Good th := by
   induction steps generalizing acc with
   | nil =>
@@ -120,8 +110,8 @@ theorem runScript_sound (steps : List Step) (acc res : List Thm)
         simp only at h
         have hprems : ∀ p ∈ prems, Good p :=
           fun p hpm => hacc p (lookupPrems_mem acc s.prevs prems hm p hpm)
-        have hgood : Good th := prim_sound s.rule s.arg prems th hprems (hs s (by simp)) hc
-        apply ih (acc ++ [th]) _ (fun s' hs' => hs s' (by simp [hs'])) h
+        have hgood : Good th := prim_sound s.rule s.arg prems th hprems hc
+        apply ih (acc ++ [th]) _ h
         intro th' hth'
         rcases List.mem_append.1 hth' with h1 | h1
         · exact hacc th' h1
@@ -130,9 +120,8 @@ theorem runScript_sound (steps : List Step) (acc res : List Thm)
 /-- Whenever the checker accepts a gap-free proof built from the primitive rules (no axioms),
 every sequent in it is well-typed and true in every finite standard model. -/
 theorem check_proof_sound (steps : List Step) (res : List Thm)
-    (hs : ∀ s ∈ steps, Arg.sigOK s.arg = true) (h : runScript steps [] = .ok res) :
-    ∀ th ∈ res, Good th :=
-  runScript_sound steps [] res (fun _ h => by cases h) hs h
+    (h : runScript steps [] = .ok res) : ∀ th ∈ res, Good th :=
+  runScript_sound steps [] res (fun _ h => by cases h) h
 
 /-- the sequent `⊢ false` (`false` is an uninterpreted boolean constant before `logic_base`
 defines it) -/
@@ -151,10 +140,9 @@ theorem falseThm_not_valid : ¬ Valid trivModel falseThm := by
 
 /-- No accepted proof ends in `⊢ false`. -/
 theorem no_false (steps : List Step) (res : List Thm)
-    (hs : ∀ s ∈ steps, Arg.sigOK s.arg = true) (h : runScript steps [] = .ok res) :
-    falseThm ∉ res := by
+    (h : runScript steps [] = .ok res) : falseThm ∉ res := by
   intro hm
-  exact falseThm_not_valid ((check_proof_sound steps res hs h _ hm).valid trivModel)
+  exact falseThm_not_valid ((check_proof_sound steps res h _ hm).valid trivModel)
 
 end Holpy.C01
 
@@ -185,7 +173,7 @@ example : (match runScript demoScript [] with
 
 /-- so `check_proof_sound` applies to it: all four sequents are valid in every model -/
 example : ∀ ths, runScript demoScript [] = .ok ths → ∀ th ∈ ths, Good th :=
-  fun ths h => check_proof_sound demoScript ths (by decide) h
+  fun ths h => check_proof_sound demoScript ths h
 
 /-- `⊢ ∀A::bool. A` is not valid either, hence never derived -/
 theorem allFalseThm_not_valid : ¬ Valid trivModel allFalseThm := by
@@ -196,9 +184,8 @@ theorem allFalseThm_not_valid : ¬ Valid trivModel allFalseThm := by
   omega
 
 theorem no_all_false (steps : List Step) (res : List Thm)
-    (hs : ∀ s ∈ steps, Arg.sigOK s.arg = true) (h : runScript steps [] = .ok res) :
-    allFalseThm ∉ res := by
+    (h : runScript steps [] = .ok res) : allFalseThm ∉ res := by
   intro hm
-  exact allFalseThm_not_valid ((check_proof_sound steps res hs h _ hm).valid trivModel)
+  exact allFalseThm_not_valid ((check_proof_sound steps res h _ hm).valid trivModel)
 
 end Holpy.C01
